@@ -43,6 +43,7 @@ def removed(run, d, bins, cases):
     # shortest-path reasoning on graphs from which causaloids were REMOVED again (C11's removal phase, which issues such calls)
     import props.c11 as c11
     c11.removed_phase(run, d, bins, None)
+    big_phase(run, bins)
 
 
 def main():
